@@ -229,8 +229,8 @@ func c16Walk(c *eng.Ctx, fn *ssa.Function) {
 				c.Problem("R1", "loop exit that is not a return at %s", c.P.Pos(last.Instrs[0].Pos()))
 				continue
 			}
-			nonNil := len(ret.Results) == 2 && !eng.IsNilConst(ret.Results[1])
-			c.Check("R1", "in-loop-exit", ret.Pos(), nonNil, "a return from inside the component loop is a rejection (non-nil error)", eng.Render(ret.Results[len(ret.Results)-1]))
+			nonNil := len(eng.RetResults(ret)) == 2 && !eng.IsNilConst(eng.RetResults(ret)[1])
+			c.Check("R1", "in-loop-exit", ret.Pos(), nonNil, "a return from inside the component loop is a rejection (non-nil error)", eng.Render(eng.RetResults(ret)[len(eng.RetResults(ret))-1]))
 		}
 		_ = foreign
 	}
@@ -261,7 +261,7 @@ func c16Rejections(c *eng.Ctx, fn *ssa.Function) {
 	c.Check("R2", "const:maximumPortableSymbolicLinkTargetLength", fn.Pos(), maxLen > 0 && maxLen < 248, "the length limit is below 248 (Windows extended-path conversion threshold)", fmt.Sprintf("value=%d", maxLen))
 	n := 0
 	for _, ret := range eng.Returns(fn) {
-		if len(ret.Results) != 2 || !eng.IsNilConst(ret.Results[1]) {
+		if len(eng.RetResults(ret)) != 2 || !eng.IsNilConst(eng.RetResults(ret)[1]) {
 			continue
 		}
 		n++
@@ -299,7 +299,7 @@ func c16Rejections(c *eng.Ctx, fn *ssa.Function) {
 			c.Check("R2", "accept-requires:"+r.name, ret.Pos(), ok, "a nil error is returned only if the target passed the '"+r.name+"' test", "guards: "+eng.AtomsText(g))
 		}
 		// The accepted value is the (possibly separator-normalised) target.
-		rv := eng.Render(ret.Results[0])
+		rv := eng.Render(eng.RetResults(ret)[0])
 		okv := rv == "p1" || (c.P.GOOS == "windows" && strings.Contains(rv, "strings.ReplaceAll(p1"))
 		if c.P.GOOS != "windows" {
 			// go/ssa keeps the phi even though the windows edge is dead.
@@ -341,10 +341,10 @@ func c16Callers(c *eng.Ctx, norm *ssa.Function) {
 			}
 			for _, p := range paths {
 				ret, ok := p.Last().Instrs[len(p.Last().Instrs)-1].(*ssa.Return)
-				if !ok || len(ret.Results) != 2 {
+				if !ok || len(eng.RetResults(ret)) != 2 {
 					continue
 				}
-				alloc, ok := eng.Unwrap(ret.Results[0]).(*ssa.Alloc)
+				alloc, ok := eng.Unwrap(eng.RetResults(ret)[0]).(*ssa.Alloc)
 				if !ok {
 					continue
 				}
